@@ -79,6 +79,7 @@ def check(prog: Program, run: Run) -> None:
     _positioning(prog, run)
     _placeholder_width(prog, run)
     _journal_direction(prog, run)
+    key_tables(prog, run)
     _recording(prog, run)
     _both_directions(prog, run)
     _case_coverage(prog, run)
@@ -92,6 +93,60 @@ def check(prog: Program, run: Run) -> None:
     run_as(run, "C02.R3", "C01.R8", lambda r: c02._emplace_alignment(prog, r))
     from . import compu
     run_as(run, "C03.R1", "C01.R9", lambda r: compu.linear_forms(prog, r, "C03.R1", "C03.R1"))
+
+
+# ----------------------------------------------------------------------- R3 (key tables)
+KEY_TABLE_WRITERS = {
+    # who may store into the key tables of the coding state (confirmed by reading): the key
+    # parameter itself, and the object that defines the key implicitly on the ENCODE side
+    "length_keys": {"LengthKeyParameter", "ParamLengthInfoType"},
+    "table_keys": {"TableKeyParameter", "TableStructParameter"},
+}
+
+
+def key_tables(prog: Program, run: Run, R: str = "C01.R3") -> None:
+    """`length_keys` / `table_keys` of EncodeState / DecodeState carry the value of a key parameter
+    to every later parameter that depends on it: entries are stored by the key parameter (on the
+    encode side also by the dependent object that fixes the key implicitly) and are never
+    removed -- a key may size several parameters of one PDU."""
+    n = 0
+    for f in prog.iter_functions():
+        for x in walk_no_nested(f.node):
+            recv = how = None
+            if isinstance(x, ast.Call) and isinstance(x.func, ast.Attribute) and \
+                    x.func.attr in ("pop", "popitem", "clear", "update", "setdefault") and \
+                    isinstance(x.func.value, ast.Attribute) and \
+                    x.func.value.attr in KEY_TABLE_WRITERS:
+                recv, how = x.func.value, x.func.attr
+            elif isinstance(x, ast.Delete):
+                for t in x.targets:
+                    if isinstance(t, ast.Subscript) and isinstance(t.value, ast.Attribute) and \
+                            t.value.attr in KEY_TABLE_WRITERS:
+                        recv, how = t.value, "del"
+            elif isinstance(x, ast.Assign):
+                for t in x.targets:
+                    if isinstance(t, ast.Subscript) and isinstance(t.value, ast.Attribute) and \
+                            t.value.attr in KEY_TABLE_WRITERS:
+                        recv, how = t.value, "store"
+            if recv is None:
+                continue
+            n += 1
+            cname = f.cls.name if f.cls else f.qual
+            where = f"{f.module.rel}:{x.lineno}"
+            if how in ("pop", "popitem", "clear", "del"):
+                run.violation(R, f.qual, f"key-removed-{recv.attr}",
+                              f"`{' '.join(ast.unparse(x).split())[:80]}` removes an entry of "
+                              f"{recv.attr}: the first dependent parameter consumes the key, every "
+                              "further parameter sized / selected by the same key finds it "
+                              "missing", where, stmt_key(x) if isinstance(x, ast.stmt) else "")
+            elif cname not in KEY_TABLE_WRITERS[recv.attr]:
+                run.violation(R, f.qual, f"key-foreign-writer-{recv.attr}",
+                              f"{cname} writes {recv.attr}; only "
+                              f"{sorted(KEY_TABLE_WRITERS[recv.attr])} define keys", where)
+            else:
+                run.ok(R, f.qual, f"{recv.attr} entry stored by its owner", where)
+    if n < 5:
+        raise AnalysisError("key table stores not found (anchor moved)")
 
 
 # ----------------------------------------------------------------------- R3 (journal lookups)
@@ -277,7 +332,25 @@ def _pairing(prog: Program, run: Run) -> None:
             conds = [ast.unparse(t) for t, p in cfg.branch_conditions(cfg.node_of(r)) if p]
             last = any(("len(" in c and "- 1" in c and "==" in c) or ("[-1]" in c and "id(" in c)
                        or ("[-1]" in c and " is " in c) for c in conds)
-            if last:
+            # the last element of a list handed in by the CALLER (the values of a field) must be
+            # recognised by position: the same object (or an equal one) may occur earlier
+            by_ident = None
+            for t, p in cfg.branch_conditions(cfg.node_of(r)):
+                if not p:
+                    continue
+                for y in ast.walk(t):
+                    if isinstance(y, ast.Subscript) and ast.unparse(y.slice) == "-1" and \
+                            isinstance(y.value, ast.Name) and y.value.id in f.params() and \
+                            y.value.id not in ("self", S):
+                        by_ident = ast.unparse(t)
+            if last and by_ident is not None:
+                run.violation(R, C, "last-item-by-identity",
+                              f"`{by_ident}` recognises the last item of a caller-supplied list by "
+                              "identity / equality: when the same object occurs earlier in the "
+                              "list that item is encoded as if it were at the end of the PDU "
+                              "(its terminator is omitted)", f"{f.module.rel}:{r.lineno}",
+                              by_ident)
+            elif last:
                 run.ok(R, C, "the saved is_end_of_pdu is re-established under a last-element "
                        "test", f"{f.module.rel}:{r.lineno}")
             else:
